@@ -135,7 +135,7 @@ func runClosureProperty(r *Run, id string, optSets [][]string, corpusOnly bool) 
 	if corpusOnly {
 		var keep []programSpec
 		for _, p := range progs {
-			if !strings.Contains(p.Name, "schema") && !strings.HasPrefix(p.Name, "hz-") {
+			if strings.HasPrefix(p.Grammar, repoDir+"/") {
 				keep = append(keep, p)
 			}
 		}
@@ -403,6 +403,41 @@ func runC14(r *Run) error {
 					continue // rule closures: covered in bulk below to keep the evidence readable
 				}
 				r.Obls = append(r.Obls, frameObligation(name, "confined."+key, key+" writes only instance state (receiver fields, variables of its Init activation, its own locals) and starts no goroutine", len(bad) == 0, strings.Join(bad, "; ")))
+			}
+			// closures created outside Init (option constructors such as Size/Pretty) must not capture a mutable
+			// object of their constructor: it would be shared by every instance configured with that option value
+			for _, key := range sortedKeys(u.Funcs) {
+				fi := u.Funcs[key]
+				if fi.Decl == nil || fi.Name == "Init" {
+					continue
+				}
+				var shared []string
+				ast.Inspect(fi.Body, func(n ast.Node) bool {
+					lit, ok := n.(*ast.FuncLit)
+					if !ok {
+						return true
+					}
+					ast.Inspect(lit.Body, func(m ast.Node) bool {
+						id, ok := m.(*ast.Ident)
+						if !ok {
+							return true
+						}
+						v, ok := u.Info.Uses[id].(*types.Var)
+						if !ok || v.IsField() {
+							return true
+						}
+						// declared in the body of the enclosing function (not a parameter), outside the literal
+						if v.Pos() >= fi.Body.Pos() && v.Pos() < fi.Body.End() && !(v.Pos() >= lit.Pos() && v.Pos() < lit.End()) {
+							switch v.Type().Underlying().(type) {
+							case *types.Slice, *types.Map, *types.Pointer, *types.Chan:
+								shared = append(shared, v.Name()+" at "+posString(u, id.Pos()))
+							}
+						}
+						return true
+					})
+					return false
+				})
+				r.Obls = append(r.Obls, frameObligation(name, "noshared."+key, "closures created by "+key+" capture no slice, map, pointer or channel allocated by "+key+" (it would be shared between instances)", len(shared) == 0, strings.Join(shared, "; ")))
 			}
 			n := 0
 			for key := range u.Funcs {
